@@ -20,19 +20,23 @@ RULE = ("(read-only) for families x configuration classes (tags x rated power x 
 ASSUMPTIONS = ["frames are classified by an independent decoder inside the simulated inverter",
                "'modbus-N' ids are documented raw-register access and are not 'unknown' ids"]
 MUST = ["concurrent_writer_reader", "readonly_calls", "readonly_frames_seen", "after_valid_setters", "invalid_export_limit", "invalid_dod", "invalid_eco_power",
-        "invalid_eco_soc", "unknown_setting_ids", "sensor_id_as_setting_id", "monitoring_over_refused_connections", "discover_readonly", "valueerror_seen"]
+        "invalid_eco_soc", "raw_ids_beyond_16_bits", "unknown_setting_ids", "sensor_id_as_setting_id", "monitoring_over_refused_connections", "discover_readonly", "valueerror_seen"]
 EXHAUSTIVE = {"quick": False, "thorough": False}
 
 
-def write_frames(sim, n_log0, n_aa0):
+def write_frames(sim, n_log0, n_aa0, n_bad0=0):
     w = [(r[2]["kind"], r[2]["reg"]) for r in sim.log[n_log0:] if r[2]["kind"] != "read"]
+    for b in sim.bad[n_bad0:]:          # frames the simulator could not parse but whose function code is a write
+        fr = b[2]
+        if len(fr) > 7 and (fr[1] in (6, 16) or (fr[2:4] == b"\x00\x00" and fr[7] in (6, 16))):
+            w.append(("malformed-write", fr.hex()[:40]))
     if hasattr(sim, "aa55_log"):
         w += [("aa55:" + c, pl.hex()) for _, _, c, pl in sim.aa55_log[n_aa0:] if not c.startswith("01")]
     return w
 
 
 def marks(sim):
-    return len(sim.log), len(getattr(sim, "aa55_log", []))
+    return len(sim.log), len(getattr(sim, "aa55_log", [])), len(sim.bad)
 
 
 def readonly_case(cfg, port, seed, part):
@@ -115,6 +119,11 @@ def readonly_case(cfg, port, seed, part):
         await guarded("read_setting(modbus-47000)", inv.read_setting("modbus-47000"), marks(sim))
         if fam != "ES":
             await guarded("read_sensor(modbus-35100)", inv.read_sensor("modbus-35100"), marks(sim))
+            # raw register ids that do not fit into 16 bits (whatever is transmitted for them must still be a read)
+            for big in (65536 + 47000, 0x30000 + 47000, 0xD0000 + 47510, 0x100000, rnd.randrange(65536, 1 << 24)):
+                await guarded(f"read_sensor(modbus-{big})", inv.read_sensor(f"modbus-{big}"), marks(sim))
+                await guarded(f"read_setting(modbus-{big})", inv.read_setting(f"modbus-{big}"), marks(sim))
+            part.count("raw_ids_beyond_16_bits")
         n_frames = (len(sim.log) - m_start[0]) + (len(getattr(sim, "aa55_log", [])) - m_start[1])
         part.count("readonly_frames_seen", n_frames)
 
@@ -142,7 +151,7 @@ def invalid_case(fam, port, variant, seed, part, wide):
     else:
         sim = models.es_sim(fw=variant.encode())
     tag = f"{fam} {variant} port={port}"
-    args = list(range(-300, 301)) + ([-70000, -65536, -32769, -32768, -1000, 1000, 32767, 32768, 65535, 65536, 70000] if wide else [-70000, -32768, 70000]) + \
+    args = list(range(-300, 301)) + [65536, 65536 + 50, 65636, -65436, -65536 + 100, 2 ** 32 + 50, 131072 + 7] + ([-70000, -65536, -32769, -32768, -1000, 1000, 32767, 32768, 65535, 65536, 70000] if wide else [-70000, -32768, 70000]) + \
         [rnd.randrange(-70000, 70001) for _ in range(30 if wide else 6)]
 
     async def flow(loop):
